@@ -152,6 +152,41 @@ Proof.
   rewrite H2 by lia. destruct cb; try discriminate; reflexivity.
 Qed.
 
+(* ---- argument lists, constructors, match ---- *)
+Definition evals_arms (d : nat) (v : value) (arms : list (pat * expr)) (en : env) (r : ctl * env) : Prop :=
+  exists f0, forall f fl, f0 <= f -> f0 <= fl -> eval_arms (call P d fl) f v arms en = Some r.
+
+Lemma ev_list_nil d en : evals_list d [] en (inr [], en).
+Proof. exists 1. intros f fl Hf _. destruct f; [lia|]. reflexivity. Qed.
+
+Lemma ev_list_cons d a r en v en1 vs en2 :
+  evals d a en (CVal v, en1) -> evals_list d r en1 (inr vs, en2) -> evals_list d (a :: r) en (inr (v :: vs), en2).
+Proof.
+  intros [f1 H1] [f2 H2]. fuel (max f1 f2). simpl. rewrite H1 by lia. rewrite H2 by lia. reflexivity.
+Qed.
+
+Lemma ev_con d c args en vs en' :
+  evals_list d args en (inr vs, en') -> evals d (ECon c args) en (CVal (VCon c vs), en').
+Proof. intros [f1 H1]. fuel f1. simpl. rewrite H1 by lia. reflexivity. Qed.
+
+Lemma ev_match d s arms en v en1 res :
+  evals d s en (CVal v, en1) -> evals_arms d v arms en1 res -> evals d (EMatch s arms) en res.
+Proof.
+  intros [f1 H1] [f2 H2]. fuel (max f1 f2). simpl. rewrite H1 by lia. simpl. apply H2; lia.
+Qed.
+
+Lemma ev_arm_hit d v p body r en b c en2 :
+  pmatch p v = Some b -> evals d body (b ++ en) (c, en2) -> evals_arms d v ((p, body) :: r) en (c, leave en en2).
+Proof.
+  intros Hp [f1 H1]. fuel f1. simpl. rewrite Hp. rewrite H1 by lia. reflexivity.
+Qed.
+
+Lemma ev_arm_miss d v p body r en res :
+  pmatch p v = None -> evals_arms d v r en res -> evals_arms d v ((p, body) :: r) en res.
+Proof.
+  intros Hp [f1 H1]. fuel f1. simpl. rewrite Hp. apply H1; lia.
+Qed.
+
 (* ---- calls of user functions ---- *)
 Lemma calls_intro d g args fd en0 c en' c' :
   is_builtin g = false -> find_fn P g = Some fd -> bind_params fd args = Some en0 ->
